@@ -158,7 +158,8 @@ def run_check(prop, tier, seed, a, t0):
             else:
                 ok = False
                 undecided.append((oid, "solver answers: %s" % (r.answers,)))
-        if can_seen.get(id(u)) and not can_ok.get(id(u)):
+        if can_seen.get(id(u)) and not can_ok.get(id(u)) and ok:
+            # (when an obligation of this unit failed, the hypotheses after it are expected to be contradictory)
             checker_failure.append("contradictory hypotheses (`ensures False` provable on every normal exit): %s[%s]"
                                    % (u.contract.qual, u.case.name))
         fentry["tier"] = "P" if ok else "P (obligations failed this run)"
